@@ -27,23 +27,28 @@
         this document" means the same by identity and by value) — both hold in every reachable state;
     `OkDB db`       every stored document is a Go value (int64 payloads in range): the C12 order laws
                     ("filter then sort = sort then filter", transitivity of key equality) hold there;
+                    kept by every well-formed call (`okDB_step`), so histories need it initially only;
     `QueryOk sch db h q`  the filter evaluates (true/false) on every stored document of the target
                     collection: the implementation scans the SORTED list and stops at the limit, the
                     Spec filters first, so a filter that raises an error on some documents only may
                     be reported by one and not the other (C13.find_with_match_errors);
     `InsertOk docs oids`  the inserted documents and generated ids are Go values;
+    `UpdateOk` / `ReplaceOk` / `BulkCallOk`  additionally: the results of `Apply` on stored documents,
+                    the replacement and the upserted document are Go values (no theorem says that
+                    `Apply` keeps int64 payloads in range; it is an input condition here), for a
+                    bulk in the Spec state in which each operation runs;
+    `TtlOk`         the TTL delete filters evaluate on the documents of their collections;
+    `HD s.catalog`  the handles of the catalog are pairwise distinct — an invariant of every
+                    reachable state (`handles_distinct`), used by `expire` only;
     reads do not address `local.oplog` (outside the Spec: it has no oplog).
 
-  COVERED (`covered c = true`, proved outright): insertOne, insertMany (ordered/unordered), find,
-  findOne, count, estimatedCount, distinct, deleteOne, deleteMany, findOneAndDelete, createIndex, dropIndex,
-  dropAllIndexes, dropIndexByKey, listIndexes, createCollection, dropCollection, dropDatabase,
-  listCollections, listDatabases.
-  NOT YET PROVED (the Spec defines them and stream `seq` compares them with the real driver; the
-  full statement is in the comment at the end): replaceOne,
-  updateOne/Many (+ upsert), findOneAndReplace/Update, bulkWrite, expire — with the exact missing
-  lemma for each.
+  ALL 27 calls are covered: insertOne, insertMany (ordered/unordered), find, findOne, count,
+  estimatedCount, distinct, updateOne, updateMany (+ upsert, array filters), replaceOne (+ upsert),
+  deleteOne, deleteMany, findOneAndDelete / Replace / Update (sort, before/after, projection, upsert),
+  bulkWrite (ordered/unordered), createIndex, dropIndex, dropAllIndexes, dropIndexByKey, listIndexes,
+  createCollection, dropCollection, dropDatabase, listCollections, listDatabases, expire.
 -/
-import Lungo.Proofs.SeqIndex
+import Lungo.Proofs.SeqOk
 import Lungo.Props.C15
 import Lungo.Props.C07
 namespace Lungo.C01
@@ -156,6 +161,60 @@ theorem refines_findOneAndDelete (s : Sys) (h : Handle) (q : Doc) (sort proj : O
     (hq : QueryOk sch (abs s.catalog) h q) : Refines sch s (.findOneAndDelete h q sort proj) oids :=
   SeqRef.refines_findOneAndDelete s h q sort proj oids ⟨hi, fun _ => hu⟩ ok hq
 
+/-- updateOne: the first match in natural order gets the update; matched / modified counts; `_id`
+    immutable; uniqueness of the resulting collection; upsert with the seed of the filter.
+    `UpdateOk`: the filter evaluates on every stored document, the results of `Apply` on stored
+    documents and the upserted document are Go values, and so are the generated ids. -/
+theorem refines_updateOne (s : Sys) (h : Handle) (q u : Doc) (upsert : Bool) (fs : List Doc) (oids : List V)
+    (hi : SysInv sch s) (hu : UniqueOkCat sch s.catalog) (ok : OkDB (abs s.catalog))
+    (hw : UpdateOk (acOf sch) (abs s.catalog) h q u upsert fs oids) :
+    Refines sch s (.updateOne h q u upsert fs) oids :=
+  SeqRef.refines_updateOne s h q u upsert fs oids ⟨hi, fun _ => hu⟩ ok hw
+
+/-- updateMany: all matches, each in its slot; a multi-update may permute unique keys (remove all,
+    then add all — the Spec's `admitAll` over the untouched documents) -/
+theorem refines_updateMany (s : Sys) (h : Handle) (q u : Doc) (upsert : Bool) (fs : List Doc) (oids : List V)
+    (hi : SysInv sch s) (hu : UniqueOkCat sch s.catalog) (ok : OkDB (abs s.catalog))
+    (hw : UpdateOk (acOf sch) (abs s.catalog) h q u upsert fs oids) :
+    Refines sch s (.updateMany h q u upsert fs) oids :=
+  SeqRef.refines_updateMany s h q u upsert fs oids ⟨hi, fun _ => hu⟩ ok hw
+
+/-- findOneAndUpdate: the head of the sorted matches; the document before / after; projection -/
+theorem refines_findOneAndUpdate (s : Sys) (h : Handle) (q u : Doc) (sort proj : Option Doc)
+    (upsert after : Bool) (fs : List Doc) (oids : List V)
+    (hi : SysInv sch s) (hu : UniqueOkCat sch s.catalog) (ok : OkDB (abs s.catalog))
+    (hw : UpdateOk (acOf sch) (abs s.catalog) h q u upsert fs oids) :
+    Refines sch s (.findOneAndUpdate h q u sort proj upsert after fs) oids :=
+  SeqRef.refines_findOneAndUpdate s h q u sort proj upsert after fs oids ⟨hi, fun _ => hu⟩ ok hw
+
+/-- replaceOne: the first match replaced in its slot by the replacement carrying the stored `_id`
+    (another `_id` is an error); upsert inserts the replacement with the `_id` of the filter's seed.
+    `ReplaceOk`: the filter evaluates on every stored document; the replacement, the upserted
+    document and the generated ids are Go values. -/
+theorem refines_replaceOne (s : Sys) (h : Handle) (q repl : Doc) (upsert : Bool) (oids : List V)
+    (hi : SysInv sch s) (hu : UniqueOkCat sch s.catalog) (ok : OkDB (abs s.catalog))
+    (hw : ReplaceOk (acOf sch) (abs s.catalog) h q repl upsert oids) :
+    Refines sch s (.replaceOne h q repl upsert) oids :=
+  SeqRef.refines_replaceOne s h q repl upsert oids ⟨hi, fun _ => hu⟩ ok hw
+
+theorem refines_findOneAndReplace (s : Sys) (h : Handle) (q repl : Doc) (sort proj : Option Doc)
+    (upsert after : Bool) (oids : List V)
+    (hi : SysInv sch s) (hu : UniqueOkCat sch s.catalog) (ok : OkDB (abs s.catalog))
+    (hw : ReplaceOk (acOf sch) (abs s.catalog) h q repl upsert oids) :
+    Refines sch s (.findOneAndReplace h q repl sort proj upsert after) oids :=
+  SeqRef.refines_findOneAndReplace s h q repl sort proj upsert after oids ⟨hi, fun _ => hu⟩ ok hw
+
+/-- bulkWrite: the operations in order, each with the semantics of the single call; ordered stops
+    at the first failing one, unordered continues; counts are sums over the successful operations,
+    upserted ids and errors are keyed by operation index; a bulk that changed nothing leaves the
+    database as it was. `BulkCallOk`: every operation is well-formed (as for the single calls) in the
+    Spec state in which it is executed, and those states hold Go values. -/
+theorem refines_bulkWrite (s : Sys) (h : Handle) (models : List BulkModel) (ordered : Bool) (oids : List V)
+    (hi : SysInv sch s) (hu : UniqueOkCat sch s.catalog)
+    (hw : BulkCallOk (acOf sch) (abs s.catalog) h ordered oids models) :
+    Refines sch s (.bulkWrite h models ordered) oids :=
+  SeqRef.refines_bulkWrite s h models ordered oids ⟨hi, fun _ => hu⟩ hw
+
 theorem refines_createCollection (s : Sys) (h : Handle) (oids : List V) :
     Refines sch s (.createCollection h) oids := SeqRef.refines_createCollection s h oids
 
@@ -180,36 +239,35 @@ theorem refines_dropAllIndexes (s : Sys) (h : Handle) (oids : List V) :
 theorem refines_dropIndexByKey (s : Sys) (h : Handle) (key : Doc) (oids : List V) :
     Refines sch s (.dropIndexByKey h key) oids := SeqRef.refines_dropIndexByKey s h key oids
 
+/-- expire: every collection with a TTL definition loses the documents holding a date older than
+    `now − expiry` at the indexed field; the reply is their number; nothing expired = no change -/
+theorem refines_expire (s : Sys) (nowMs : Int) (oids : List V) (hi : SysInv sch s)
+    (hu : UniqueOkCat sch s.catalog) (hh : HD s.catalog) (ok : OkDB (abs s.catalog))
+    (hw : TtlOk sch nowMs (abs s.catalog).colls) : Refines sch s (.expire nowMs) oids :=
+  SeqRef.refines_expire s nowMs oids ⟨hi, fun _ => hu⟩ hh ok hw
+
+/-- the handles of the catalog are pairwise distinct in every reachable state -/
+theorem handles_distinct (calls : List (Call × List V)) : HD (Sys.run sch Sys.init calls).catalog :=
+  HD.run HD.init calls
+
+theorem handles_distinct_step {s s' : Sys} {c : Call} {oids : List V} {r : Reply} (hh : HD s.catalog)
+    (e : Sys.step sch s c oids = .ok (s', r)) : HD s'.catalog := hh.step e
+
 /-! ### assembled -/
 
-/-- the calls whose refinement is proved -/
-def covered : Call → Bool
-  | .insertOne .. | .insertMany .. | .find .. | .findOne .. | .count .. | .estCount _ | .distinct ..
-  | .deleteOne .. | .deleteMany .. | .findOneAndDelete .. | .createIndex .. | .dropIndex .. | .dropAllIndexes _
-  | .dropIndexByKey .. | .listIndexes _ | .createCollection _ | .dropCollection _ | .dropDatabase _
-  | .listCollections .. | .listDatabases _ => true
-  | _ => false
+/-- the Spec keeps "every stored document is a Go value" under well-formed calls (`WF`, defined in
+    Proofs/SeqOk.lean: per call `InsertOk` / `QueryOk` / `UpdateOk` / `ReplaceOk` / `BulkCallOk` / `TtlOk`,
+    and "not `local.oplog`" for reads) -/
+theorem okDB_step {db db' : SeqDB} {c : Call} {oids : List V} {r : Reply} (ok : OkDB db)
+    (hw : WF sch db oids c) (e : Spec.step sch db c oids = .ok (db', r)) : OkDB db' :=
+  SeqRef.okDB_step ok hw e
 
-/-- well-formedness of a call with respect to the Spec's state `db` -/
-def WF (sch : SchemaEval) (db : SeqDB) (oids : List V) : Call → Prop
-  | .insertOne _ doc => InsertOk [doc] oids
-  | .insertMany _ docs _ => InsertOk docs oids
-  | .find h q _ => h ≠ oplogHandle ∧ QueryOk sch db h q
-  | .findOne h q _ => h ≠ oplogHandle ∧ QueryOk sch db h q
-  | .count h q _ _ => h ≠ oplogHandle ∧ QueryOk sch db h q
-  | .distinct h _ q => h ≠ oplogHandle ∧ QueryOk sch db h q
-  | .estCount h => h ≠ oplogHandle
-  | .listIndexes h => h ≠ oplogHandle
-  | .deleteOne h q => QueryOk sch db h q
-  | .deleteMany h q => QueryOk sch db h q
-  | .findOneAndDelete h q _ _ => QueryOk sch db h q
-  | _ => True
-
-/-- **api_refines** (the proved subset): in a state satisfying the C15 invariant and C07, whose
-    documents are Go values, every covered, well-formed call returns under the Spec exactly what
-    the implementation model returns — the same reply or the same error — and `abs` commutes. -/
-theorem api_refines_partial {s : Sys} {c : Call} {oids : List V} (hi : SysInv sch s)
-    (hu : UniqueOkCat sch s.catalog) (ok : OkDB (abs s.catalog)) (hc : covered c = true)
+/-- **api_refines**: in a state satisfying the C15 invariant and C07, with pairwise distinct
+    handles, whose documents are Go values, every well-formed call — all 27 of them — returns under
+    the Spec exactly what the implementation model returns (the same reply or the same error), and
+    `abs` commutes. -/
+theorem api_refines {s : Sys} {c : Call} {oids : List V} (hi : SysInv sch s)
+    (hu : UniqueOkCat sch s.catalog) (hh : HD s.catalog) (ok : OkDB (abs s.catalog))
     (hw : WF sch (abs s.catalog) oids c) :
     Spec.step sch (abs s.catalog) c oids =
       (Sys.step sch s c oids).map (fun p => (abs p.1.catalog, p.2)) := by
@@ -233,14 +291,16 @@ theorem api_refines_partial {s : Sys} {c : Call} {oids : List V} (hi : SysInv sc
   | dropDatabase db => exact refines_dropDatabase s db oids hi
   | listCollections db q => exact refines_listCollections s db q oids
   | listDatabases q => exact refines_listDatabases s q oids
-  | updateOne _ _ _ _ _ => cases hc
-  | updateMany _ _ _ _ _ => cases hc
-  | replaceOne _ _ _ _ => cases hc
-  | findOneAndReplace _ _ _ _ _ _ _ => cases hc
-  | findOneAndUpdate _ _ _ _ _ _ _ _ => cases hc
-  | bulkWrite _ _ _ => cases hc
+  | updateOne h q u upsert fs => exact refines_updateOne s h q u upsert fs oids hi hu ok hw
+  | updateMany h q u upsert fs => exact refines_updateMany s h q u upsert fs oids hi hu ok hw
+  | replaceOne h q repl upsert => exact refines_replaceOne s h q repl upsert oids hi hu ok hw
+  | findOneAndReplace h q repl sort proj upsert after =>
+    exact refines_findOneAndReplace s h q repl sort proj upsert after oids hi hu ok hw
+  | findOneAndUpdate h q u sort proj upsert after fs =>
+    exact refines_findOneAndUpdate s h q u sort proj upsert after fs oids hi hu ok hw
+  | bulkWrite h models ordered => exact refines_bulkWrite s h models ordered oids hi hu hw
   | createIndex h name cfg => exact refines_createIndex s h name cfg oids hi ok
-  | expire _ => cases hc
+  | expire nowMs => exact refines_expire s nowMs oids hi hu hh ok hw
 
 /-! ### histories -/
 
@@ -253,17 +313,17 @@ def sysReplies (sch : SchemaEval) : Sys → List (Call × List V) → List (Res 
     | .ok (s', rep) => .ok rep :: sysReplies sch s' r
     | .error e => .error e :: sysReplies sch s r
 
-/-- along the history, judged on the SPEC's states: every call is covered and well-formed, every
-    stored document is a Go value -/
+/-- along the history, judged on the SPEC's states: every call is well-formed -/
 def RunOk (sch : SchemaEval) : SeqDB → List (Call × List V) → Prop
   | _, [] => True
   | db, co :: r =>
-    covered co.1 = true ∧ OkDB db ∧ WF sch db co.2 co.1 ∧
+    WF sch db co.2 co.1 ∧
       RunOk sch (match Spec.step sch db co.1 co.2 with
         | .ok (db', _) => db'
         | .error _ => db) r
 
-theorem api_refines_run_from {s : Sys} (hi : SysInv sch s) (hu : UniqueOkCat sch s.catalog) :
+theorem api_refines_run_from {s : Sys} (hi : SysInv sch s) (hu : UniqueOkCat sch s.catalog)
+    (hh : HD s.catalog) (ok : OkDB (abs s.catalog)) :
     ∀ (calls : List (Call × List V)), RunOk sch (abs s.catalog) calls →
       sysReplies sch s calls = Spec.replies sch (abs s.catalog) calls ∧
       abs (Sys.run sch s calls).catalog = Spec.run sch (abs s.catalog) calls := by
@@ -272,8 +332,8 @@ theorem api_refines_run_from {s : Sys} (hi : SysInv sch s) (hu : UniqueOkCat sch
   | nil => intro _; exact ⟨rfl, rfl⟩
   | cons co r ih =>
     intro hr
-    obtain ⟨hc, ok, hw, hrest⟩ := hr
-    have hstep := api_refines_partial hi hu ok hc hw
+    obtain ⟨hw, hrest⟩ := hr
+    have hstep := api_refines hi hu hh ok hw
     simp only [sysReplies, Spec.replies, Sys.run, Spec.run, List.foldl_cons]
     cases hs : Sys.step sch s co.1 co.2 with
     | error e =>
@@ -281,7 +341,7 @@ theorem api_refines_run_from {s : Sys} (hi : SysInv sch s) (hu : UniqueOkCat sch
       simp only [Except.map] at hstep
       rw [hstep] at hrest ⊢
       simp only at hrest ⊢
-      obtain ⟨h1, h2⟩ := ih hi hu hrest
+      obtain ⟨h1, h2⟩ := ih hi hu hh ok hrest
       exact ⟨by rw [h1], h2⟩
     | ok p =>
       obtain ⟨s', rep⟩ := p
@@ -290,10 +350,10 @@ theorem api_refines_run_from {s : Sys} (hi : SysInv sch s) (hu : UniqueOkCat sch
       rw [hstep] at hrest ⊢
       simp only at hrest ⊢
       obtain ⟨hi', hu'⟩ := C07.unique_step hi hu hs
-      obtain ⟨h1, h2⟩ := ih hi' hu' hrest
+      obtain ⟨h1, h2⟩ := ih hi' hu' (hh.step hs) (okDB_step ok hw hstep) hrest
       exact ⟨by rw [h1], h2⟩
 
-/-- **api_refines_run**: for every history of covered, well-formed calls from the empty database,
+/-- **api_refines_run**: for every history of well-formed calls from the empty database,
     the implementation model and the sequential reference model give the same replies (documents,
     counts, ids, error classes), call by call, and end with the same contents. -/
 theorem api_refines_run (calls : List (Call × List V)) (hr : RunOk sch SeqDB.init calls) :
@@ -302,7 +362,10 @@ theorem api_refines_run (calls : List (Call × List V)) (hr : RunOk sch SeqDB.in
   have hu : UniqueOkCat sch Sys.init.catalog := by
     have := C07.uniqueOk_run (sch := sch) []
     simpa [Sys.run] using this
-  have := api_refines_run_from (sch := sch) C15.inv_init hu calls (by rw [abs_init]; exact hr)
+  have ok0 : OkDB (abs Sys.init.catalog) := by
+    rw [abs_init]; intro h c hm d hd
+    simp [SeqDB.init] at hm; obtain ⟨_, rfl⟩ := hm; cases hd
+  have := api_refines_run_from (sch := sch) C15.inv_init hu HD.init ok0 calls (by rw [abs_init]; exact hr)
   rw [abs_init] at this
   exact this
 
@@ -316,14 +379,14 @@ def demoCalls : List (Call × List V) :=
    (.createCollection ⟨"d", "e"⟩, []),
    (.dropDatabase "d", [])]
 
--- the first call of the demo history is covered and well-formed in the initial state (all hypotheses
--- of `api_refines_partial` hold there)
+-- the first call of the demo history is well-formed in the initial state (all hypotheses of
+-- `api_refines` hold there)
 example : Spec.step sch (abs Sys.init.catalog) (.insertOne demoH [("a", .i32 1)]) [.oid [1]] =
     (Sys.step sch Sys.init (.insertOne demoH [("a", .i32 1)]) [.oid [1]]).map (fun p => (abs p.1.catalog, p.2)) :=
-  api_refines_partial C15.inv_init
+  api_refines C15.inv_init
     (by have := C07.uniqueOk_run (sch := sch) []; simpa [Sys.run] using this)
+    HD.init
     (by rw [abs_init]; intro h c hm d hd; simp [SeqDB.init] at hm; obtain ⟨_, rfl⟩ := hm; cases hd)
-    rfl
     ⟨fun d hd => by simp at hd; subst hd; simp [DocOk, V.i64Ok, i64OkFields],
      fun o ho => by simp at ho; subst ho; simp [V.i64Ok]⟩
 
@@ -335,30 +398,13 @@ example : Spec.step sch (abs Sys.init.catalog) (.insertOne demoH [("a", .i32 1)]
   == [("oplog", 0, []), ("c", 2, ["_id_"]), ("e", 0, ["_id_"])]
 
 /-
-  FULL STATEMENT (not yet proved for the calls with `covered c = false`):
-
-  theorem api_refines {s : Sys} {c : Call} {oids : List V} (hi : SysInv sch s)
-      (hu : UniqueOkCat sch s.catalog) (ok : OkDB (abs s.catalog)) (hw : WFfull sch (abs s.catalog) oids c) :
-      Spec.step sch (abs s.catalog) c oids = (Sys.step sch s c oids).map (fun p => (abs p.1.catalog, p.2))
-
-  where `WFfull` adds, for the calls below, `QueryOk` of their filters, `DocOk` of replacement /
-  upserted / updated documents (results of `Apply` on stored documents are Go values).
-  Missing lemmas, call by call:
-  * replaceOne / findOneAndReplace — `replace_upd_admits`: on a coherent collection,
-      (Coll.replace.upd sch old nw idx).map (fun _ => ()) = admits sch ((docs without old).map doc) nw.doc (shape idx)
-    (per index: `IndexCoherent.remove` then `add_eq` over `docs \ {old}`), and
-    `replaceDoc docs old.id nw` = `swapDoc` on the abstraction (from `DocInj` as in `remove_abs`).
-  * updateOne / updateMany / findOneAndUpdate — `foldIdx_add_admitAll`: after `foldIdx_remove_ok`,
-      (foldIdx addToIndexes idx1 news).map (fun _ => ()) = admitAll sch (shape idx) ((docs \ list).map doc) (news.map doc)
-    (induction on `news` with `addToIndexes_admits` and `AllCoherent.add`), `applyAll` = `applyEach`,
-    and the `foldl replaceDoc` = `swapAll` on the abstraction (`foldl_replaceDoc_spec` + `DocInj`).
-  * upsert paths — `Coll.upsert` = `SColl.upsert` follows from `insert_abs` by unfolding (`upsertDoc` is
-    the same sequence of shared functions); needs `DocOk` of the constructed document.
-  * bulkWrite — induction over the operations as in `insert_go_abs`, from the four operation lemmas
-    above, plus `bulkReply` (sums) = the implementation's left fold over the results.
-  * expire — needs the invariant "the handles of the catalog are pairwise distinct" (preserved by
-    `Catalog.set`, filter and append-if-absent; not part of `Inv`), because `Catalog.set` replaces every
-    entry of a handle whereas the Spec maps over the entries; then `deleteOp_abs` per namespace.
+  `OkDB` is NOT an assumption along a history: the initial database is empty and `okDB_step` carries
+  it through every well-formed call. What remains an INPUT CONDITION rather than a theorem are the
+  `DocOk` clauses inside `WF`: the inserted documents / replacement / generated ids are Go values
+  (true of every Go value the driver can be handed), and — `ApplyOkOn`, `UpsertOk` — the results of
+  `Apply` (on stored documents, on the upsert seed) are Go values. The latter would follow from
+  "`Apply` and `Extract` map Go values to Go values" (int64 payloads stay in range), a statement about
+  the operator semantics (C11's subject) that is not proved anywhere yet.
 -/
 
 end Lungo.C01
